@@ -298,15 +298,10 @@ func (m *Model) deleteMode(id string, opts ...resource.WriteOption) error {
 		return ErrDeleteActiveMode
 	}
 
-	msg, err := m.modes.Delete(id, opts...)
-	if err != nil {
-		return err
-	}
-	if msg == nil {
-		return ErrModeNotFound
-	}
-
-	return nil
+	// an absent mode is reported by Delete as a NotFound error, unless resource.WithAllowMissing was given,
+	// in which case it returns no error and no message and the delete counts as a success
+	_, err := m.modes.Delete(id, opts...)
+	return err
 }
 
 // UpdateMode will modify one of the modes stored in this device.
